@@ -378,7 +378,7 @@ type RulesBasedSamplerCondition struct {
 	Field    string                            `json:"field" yaml:"Field"`
 	Fields   []string                          `json:"fields" yaml:"Fields,omitempty"`
 	Operator string                            `json:"operator" yaml:"Operator" validate:"required"`
-	Value    any                               `json:"value" yaml:"Value" `
+	Value    any                               `json:"value" yaml:"Value,omitempty"`
 	Datatype string                            `json:"datatype" yaml:"Datatype,omitempty"`
 	Matches  func(value any, exists bool) bool `json:"-" yaml:"-"`
 
